@@ -504,10 +504,13 @@ def run_culture_state(ctx, rounds):
                 if isinstance(am_, list): am_[2] = "Vnt"
                 else: am_ = list(am_); am_[2] = "Vnt"
                 f.abbreviated_month_names = am_
-            else: f.long_date_pattern = "yyyy MMMM dd"
+            elif k == 4: f.long_date_pattern = "yyyy MMMM dd"
+            else: f.long_time_pattern = "HH:mm:ss.fff"; f.short_time_pattern = "HH'h'mm"
         probes = [(T.LocalDatePattern, "dddd d MMMM", LocalDate(2024, 3, 4)), (T.LocalDatePattern, "ddd MMM", LocalDate(2024, 3, 4)), (T.LocalTimePattern, "hh:mm tt", LocalTime(9, 30, 15)),
                   (T.LocalDateTimePattern, "dddd MMMM d hh tt", LocalDateTime(2024, 3, 4, 21, 30, 15)), (T.LocalDatePattern, "D", LocalDate(2024, 3, 4)),
-                  (T.LocalDatePattern, "MMMM yyyy", LocalDate(2024, 3, 4)), (T.LocalDatePattern, "MMM yyyy", LocalDate(2024, 3, 4))]
+                  (T.LocalDatePattern, "MMMM yyyy", LocalDate(2024, 3, 4)), (T.LocalDatePattern, "MMM yyyy", LocalDate(2024, 3, 4)),
+                  (T.LocalDateTimePattern, "F", LocalDateTime(2024, 3, 4, 13, 45, 56).plus_milliseconds(789)), (T.LocalDateTimePattern, "f", LocalDateTime(2024, 3, 4, 13, 45, 56)),
+                  (T.LocalDateTimePattern, "G", LocalDateTime(2024, 3, 4, 13, 45, 56).plus_milliseconds(789)), (T.LocalTimePattern, "T", LocalTime(13, 45, 56).plus_milliseconds(789))]
         for r in range(max(6, rounds // 4)):
             nm = rng.choice(names + ["en-US", "fr-FR"])
             try:
@@ -522,7 +525,7 @@ def run_culture_state(ctx, rounds):
                     except Exception as e: out_.append(repr(e)[:60])  # noqa: BLE001,E701
                 return out_
             base_texts = untouched_texts()
-            order = rng.sample(range(5), 5)
+            order = rng.sample(range(6), 6)
             for k in order:
                 for P_, spec, v in probes:            # use it first (whatever is cached is cached now) ...
                     try: P_.create(spec, used).format(v)
